@@ -158,6 +158,29 @@ class SymNd(rnp.ndarray):
         return rnp.ndarray.item(self, *a)
 
 
+def _trunc_value(v):
+    if isinstance(v, SR):
+        return v.trunc()
+    if isinstance(v, rnp.ndarray):
+        return _map(_trunc_value, v) if v.dtype == object else (v.astype(rnp.int64) if v.dtype.kind == "f" else v)
+    if isinstance(v, (float, rnp.floating)):
+        return int(v)
+    if isinstance(v, (list, tuple)):
+        return [_trunc_value(e) for e in v]
+    return v
+
+
+class IntNd(SymNd):
+    """object array standing for an array of INTEGER dtype: whatever is stored into it is cast like numpy casts on assignment
+    (truncation towards zero); arithmetic on it gives ordinary (float-like) symbolic arrays; views, copies and `*_like` keep the type"""
+
+    def __array_wrap__(self, out, context=None, return_scalar=False):
+        return out.view(SymNd) if isinstance(out, rnp.ndarray) else out
+
+    def __setitem__(self, k, v):
+        SymNd.__setitem__(self, k, _trunc_value(v))
+
+
 class MaskSel:
     """a[mask] with a symbolic mask: kept at full shape; only usable as the source of b[mask] = ... with the same mask"""
     def __init__(self, full, mask):
@@ -429,7 +452,17 @@ class NumpyShim:
         a.fill(SR(z3.RealVal(1)))
         return a
 
+    def _int_like(self, a, dtype, fill):
+        if isinstance(a, IntNd) and dtype is None:
+            out = rnp.empty(rnp.shape(a), dtype=object)
+            out.fill(SR(z3.IntVal(fill)))
+            return out.view(IntNd)
+        return None
+
     def zeros_like(self, a, dtype=None, **k):
+        r = self._int_like(a, dtype, 0)
+        if r is not None:
+            return r
         dtype = _real_dtype(dtype)
         if not has_sym(a) and not (isinstance(a, rnp.ndarray) and a.dtype == object):
             return rnp.zeros_like(a, dtype=dtype)
@@ -437,11 +470,17 @@ class NumpyShim:
         return self.zeros(rnp.shape(a), dtype=complex if cplx else float)
 
     def ones_like(self, a, dtype=None, **k):
+        r = self._int_like(a, dtype, 1)
+        if r is not None:
+            return r
         if not has_sym(a) and not (isinstance(a, rnp.ndarray) and a.dtype == object):
             return rnp.ones_like(a, dtype=dtype)
         return self.ones(rnp.shape(a))
 
     def empty_like(self, a, dtype=None, **k):
+        r = self._int_like(a, dtype, 0)
+        if r is not None:
+            return r
         if not has_sym(a):
             return rnp.empty_like(a, dtype=dtype)
         return self.zeros(rnp.shape(a))
